@@ -571,7 +571,7 @@ func (c *coverer) containsAllChildren(covering []CellID, id CellID) bool {
 // replaceCellsWithAncestor replaces all descendants of the given id in covering
 // with id. This requires the covering contains at least one descendant of id.
 func (c *coverer) replaceCellsWithAncestor(covering []CellID, id CellID) []CellID {
-	begin := sort.Search(len(covering), func(i int) bool { return covering[i] > id.RangeMin() })
+	begin := sort.Search(len(covering), func(i int) bool { return covering[i] >= id.RangeMin() })
 	end := sort.Search(len(covering), func(i int) bool { return covering[i] > id.RangeMax() })
 
 	return append(append(covering[:begin], id), covering[end:]...)
